@@ -359,14 +359,21 @@ def c07_s5(ctx):
     if okret:
         yield ok("C07-S5", "SendTransaction::get_checksum:return", at(g), "returns the cached value, checksum(file) or 0 for a transaction without file")
     # the one opener: get_handle opens metadata.source_filename read-only
-    o = ctx.one("C07-S5", "SendTransaction::open_source_file")
-    ebo = ExprBuilder(ctx.prog, o)
-    opens = [simp(ebo.call(b, t)) for b, t in o.all_calls() if (ctx.prog.callee_of(t)[0] or "").endswith("FileStore::open")]
-    n += 1
-    if len(opens) == 1 and "self.metadata.source_filename" in expr_str(opens[0][3][1]):
-        yield ok("C07-S5", "SendTransaction::open_source_file", at(o), "opens metadata.source_filename")
-    else:
-        yield bad("C07-S5", "SendTransaction::open_source_file", at(o), "the source handle is not opened from metadata.source_filename: %s" % [expr_str(x)[:120] for x in opens])
+    opens = []
+    for o in impl_and_closures(ctx, SEND):
+        ebo = ExprBuilder(ctx.prog, o)
+        for b, t in o.all_calls():
+            if (ctx.prog.callee_of(t)[0] or "").endswith("FileStore::open"):
+                opens.append((o, t, simp(ebo.call(b, t))))
+    if not opens:
+        raise Anchor("C07-S5", "FileStore::open in the sender (the source file opener)")
+    for i, (o, t, e) in enumerate(opens):
+        n += 1
+        key = "SendTransaction:source-open" + ("#%d" % (i + 1) if i else "")
+        if "self.metadata.source_filename" in expr_str(e[3][1]):
+            yield ok("C07-S5", key, at(o, t["span"]["line"]), "%s opens metadata.source_filename" % o.name)
+        else:
+            yield bad("C07-S5", key, at(o, t["span"]["line"]), "the sender opens %s, not metadata.source_filename" % expr_str(e[3][1])[:120])
     # file data PDU: (offset, data) of one get_file_segment call
     for f, b, j, s in agg_sites(sfns, "UnsegmentedFileData"):
         n += 1
@@ -918,9 +925,11 @@ def c10_k6(ctx):
                 out.append(cal.split("::")[-1])
         return out
 
+    # "acts" = calls a method of the transaction or of its timers (comparisons of the phase are not actions)
+    own = {g.norm for g in impl_fns(ctx, SEND)}
     active, armed = {}, {}
     for ph in sorted(set(names.values())):
-        acts = reachable_calls(ht, ph, lambda c: c.startswith("cfdp_daemon::"))
+        acts = reachable_calls(ht, ph, lambda c: c in own or c.startswith("cfdp_daemon::timer::"))
         if acts:
             active[ph] = sorted(set(acts))
         if reachable_calls(ut, ph, lambda c: c.endswith("Timer::until_timeout") or c.endswith("Counter::until_timeout")):
